@@ -155,9 +155,9 @@ per_count("gettsec", replay="replay/store_sections.c", counts_quick=(0, 1, 2), c
 U("gettsec_long", entry="h_gettsec_long", func="cfg_opt_gettsecidx, cfg_opt_gettsec", harness="harness/sections.c", defs={"quick": ["-DNV=2"]}, cbmc=unw(8) + NOOOM,
   label="bounded(two instances, titles and the title asked for 1..2 bytes over all bytes, either case rule)", props=["C09", "C11", "C02"], cost=10, **SECC)
 per_count("rmnsec", replay="replay/store_sections.c", counts_quick=(0, 1, 2, 3), counts_thorough=(0, 1, 2, 3), entry="h_rmnsec", func="cfg_opt_rmnsec", harness="harness/sections.c",
-          cbmc=unw(8) + LEAK, label=SECTXT + "; index 0,1,2,7", props=["C09", "C10", "C07", "C02"], cost=30, **SECC)
+          cbmc=unw(8) + LEAK, label=SECTXT + "; index 0,1,2,7", props=["C09", "C10", "C07", "C02", "C17"], cost=30, **SECC)
 per_count("rmtsec", replay="replay/store_sections.c", counts_quick=(0, 1, 2, 3), counts_thorough=(0, 1, 2, 3), entry="h_rmtsec", func="cfg_opt_rmtsec", harness="harness/sections.c",
-          cbmc=unw(8), label=SECTXT, props=["C09", "C10", "C07", "C02"], cost=30, **SECC)
+          cbmc=unw(8), label=SECTXT, props=["C09", "C10", "C07", "C02", "C17"], cost=30, **SECC)
 
 # ------------------------------------------------------------------ grammar (cfg_parse_internal)
 PARSEC = dict(remove=["cfg_getopt", "cfg_setopt", "cfg_addopt", "cfg_addval", "call_function", "cfg_free_value", "cfg_opt_setcomment"],
